@@ -11,6 +11,7 @@ import (
 	pb "github.com/AliceO2Group/Control/core/protos"
 	"github.com/AliceO2Group/Control/verif_h/coresim"
 	vrt "github.com/AliceO2Group/Control/verif_vrt"
+	mesos "github.com/mesos/mesos-go/api/v1/lib"
 )
 
 func agents() []*coresim.Agent {
@@ -84,6 +85,8 @@ func destroyScenario() *vrt.Scenario {
 			st := states[vrt.ChooseFree(len(states), "state")]
 			fl := flagSets[vrt.ChooseFree(len(flagSets), "flags")]
 			ko := []coresim.Outcome{killOutcomes[vrt.ChooseFree(len(killOutcomes), "kill0")], killOutcomes[vrt.ChooseFree(len(killOutcomes), "kill1")]}
+			// something that happened to the environment's tasks before the destroy request
+			pre := []string{"none", "executor-failed", "agent-failed", "task-failed", "task-lost"}[vrt.ChooseFree(5, "before-destroy")]
 			m := coresim.NewMaster(agents()...)
 			f = facts{keepTasks: fl.keep}
 			m.Behaviour = func(t *coresim.SimTask, kind string) coresim.Outcome {
@@ -119,13 +122,34 @@ func destroyScenario() *vrt.Scenario {
 				w.Control(id, pb.ControlEnvironmentRequest_STOP_ACTIVITY)
 				vrt.Sleep(2 * time.Second)
 			}
+			switch pre {
+			case "executor-failed":
+				if ts := m.AliveTasks(); len(ts) > 0 {
+					m.FailExecutor(ts[0].AgentID, ts[0].ExecutorID)
+				}
+			case "agent-failed":
+				m.FailAgent("agentA")
+			case "task-failed":
+				if ts := m.AliveTasks(); len(ts) > 0 {
+					m.FailTask(ts[0], mesos.TASK_FAILED)
+				}
+			case "task-lost":
+				if ts := m.AliveTasks(); len(ts) > 1 {
+					m.FailTask(ts[1], mesos.TASK_LOST)
+				}
+			}
+			if pre != "none" {
+				vrt.Quiesce("after-fault")
+				vrt.Sleep(2 * time.Second)
+				vrt.Quiesce("after-fault2")
+			}
 			got, _ := w.EnvState(id)
 			reachedDestroy = true
 			f.rpcErr = w.Destroy(id, fl.force, fl.allowRun, fl.keep)
 			vrt.Quiesce("after-destroy")
 			vrt.Sleep(3 * time.Second)
 			vrt.Quiesce("after-destroy2")
-			desc = fmt.Sprintf("state=%s(%s) flags=%s kill=%v err=%v", st, got, fl.name, ko, f.rpcErr)
+			desc = fmt.Sprintf("state=%s(%s) before=%s flags=%s kill=%v err=%v", st, got, pre, fl.name, ko, f.rpcErr)
 			vrt.Logf("%s", desc)
 		},
 		Check: func(x *vrt.Exec) (out []vrt.Violation) {
